@@ -754,13 +754,8 @@ func (e *Env) lineBreakBlocks(info *types.Info, fd *ast.FuncDecl) [][]ast.Stmt {
 			// text) do not move the cursor: the caller advances by len(text)
 			inTextLoop := false
 			ast.Inspect(fd.Body, func(x ast.Node) bool {
-				switch l := x.(type) {
-				case *ast.RangeStmt:
-					if l.Body.Pos() <= as.Pos() && as.End() <= l.Body.End() {
-						if b, ok := info.TypeOf(l.X).Underlying().(*types.Basic); ok && b.Info()&types.IsString != 0 {
-							inTextLoop = true
-						}
-					}
+				if body := loopBody(x); body != nil && body.Pos() <= as.Pos() && as.End() <= body.End() && e.isTextLoop(info, x) {
+					inTextLoop = true
 				}
 				return true
 			})
@@ -795,9 +790,11 @@ func (e *Env) lineBreaksAdvance(c *schema.Ctx) {
 				e.Run.Check("R-CURSOR", key, e.Prog.Pos(eff.pos), false, eff.why)
 				continue
 			}
-			good := len(eff.starts) == 1 && eff.starts[0] >= 0 && eff.exit > eff.starts[0] && eff.markerSet && eff.markerVal == eff.exit
+			// (whether and where the marker is set is decided by the line-state machine, R-SPACE; if
+			// it is set inside the block it must be the exit cursor)
+			good := len(eff.starts) == 1 && eff.starts[0] >= 0 && eff.exit > eff.starts[0] && (!eff.markerSet || eff.markerVal == eff.exit)
 			e.Run.Check("R-CURSOR", key, e.Prog.Pos(blk[0].Pos()), good,
-				fmt.Sprintf("effect of the block over the entry cursor c0: line starts recorded at c0+%v, cursor on exit c0+%d, marker set=%v to c0+%d — one line start must be recorded at or after c0, the cursor must end strictly after it (it steps over the newline byte) and the marker must equal the exit cursor; otherwise two line starts can coincide (SetLines fails) or the next spacing is miscounted",
+				fmt.Sprintf("effect of the block over the entry cursor c0: line starts recorded at c0+%v, cursor on exit c0+%d, marker set=%v to c0+%d — one line start must be recorded at or after c0, the cursor must end strictly after it (it steps over the newline byte) and a marker set here must equal the exit cursor; otherwise two line starts can coincide (SetLines fails) or the next spacing is miscounted",
 					eff.starts, eff.exit, eff.markerSet, eff.markerVal))
 		}
 	}
@@ -1277,4 +1274,49 @@ func (e *Env) forwardCounter(info *types.Info, fd *ast.FuncDecl, o types.Object)
 		return true
 	})
 	return good && seen
+}
+
+func loopBody(n ast.Node) *ast.BlockStmt {
+	switch l := n.(type) {
+	case *ast.RangeStmt:
+		return l.Body
+	case *ast.ForStmt:
+		return l.Body
+	}
+	return nil
+}
+
+// isTextLoop: a loop over the text of a literal or comment that records the line starts inside it:
+// a range over a string, or a for loop (a string search), whose body appends to the line table
+// and writes neither the cursor nor the fresh-line marker.
+func (e *Env) isTextLoop(info *types.Info, n ast.Node) bool {
+	body := loopBody(n)
+	if body == nil {
+		return false
+	}
+	if rs, ok := n.(*ast.RangeStmt); ok {
+		if b, ok := info.TypeOf(rs.X).Underlying().(*types.Basic); !ok || b.Info()&types.IsString == 0 {
+			return false
+		}
+	}
+	appends, moves := false, false
+	ast.Inspect(n, func(m ast.Node) bool {
+		switch x := m.(type) {
+		case *ast.AssignStmt:
+			for _, l := range x.Lhs {
+				if e.isRestorerField(info, l, "lines") {
+					appends = true
+				}
+				if e.isRestorerField(info, l, "cursor") || e.isRestorerField(info, l, "cursorAtNewLine") {
+					moves = true
+				}
+			}
+		case *ast.IncDecStmt:
+			if e.isRestorerField(info, x.X, "cursor") {
+				moves = true
+			}
+		}
+		return true
+	})
+	return appends && !moves
 }
